@@ -244,7 +244,9 @@ func (a *adapter) Data(data []byte, streamEnded bool) error {
 		default:
 			panic(fmt.Sprintf("unexpected state: %v", a.state))
 		}
-		if a.buffer.Len() == 0 {
+		// A zero-length message has no bytes left to wait for: it is complete as soon as its
+		// prefix has been read, even when the buffer is empty.
+		if a.buffer.Len() == 0 && !(a.state == readingMessageData && a.length == 0) {
 			return nil
 		}
 	}
